@@ -72,17 +72,17 @@ type Task struct {
 	dead bool
 
 	// scheduler-private
-	parked     bool
-	done       bool
-	waitMark   uint64
-	lastKind   Kind
-	fruitless  bool
-	started    bool
-	Tag        string      // free for the world
-	Data       interface{} // free for the world (scheduler goroutine only)
-	Data0      []byte // pending request bytes (scheduler-owned copy)
-	Born       int    // scheduler step at which the task was registered
-	children   int
+	parked    bool
+	done      bool
+	waitMark  uint64
+	lastKind  Kind
+	fruitless bool
+	started   bool
+	Tag       string      // free for the world
+	Data      interface{} // free for the world (scheduler goroutine only)
+	Data0     []byte      // pending request bytes (scheduler-owned copy)
+	Born      int         // scheduler step at which the task was registered
+	children  int
 }
 
 // Req is an environment request. It is encoded to bytes on the task side.
@@ -131,30 +131,32 @@ type Violation struct {
 	Step    int    `json:"step"`
 }
 
-func (v *Violation) Error() string { return fmt.Sprintf("%s: %s (step %d)", v.Oracle, v.Message, v.Step) }
+func (v *Violation) Error() string {
+	return fmt.Sprintf("%s: %s (step %d)", v.Oracle, v.Message, v.Step)
+}
 
 // Sim is one simulated run.
 type Sim struct {
-	C        *Choices
-	W        World
-	tasks    []*Task
-	schedCh  chan *Task
-	nextID   int
-	lockSeq  int32
-	Steps    int
-	MaxSteps int
-	progress uint64
-	hash     uint64
-	Trace    []string
-	TraceOn  bool
-	Viol     *Violation
-	Stats    map[string]int
-	SigParts []string // schedule signature parts (contested decisions, faults)
-	Contested int
-	initToks []*byte
-	lastRun  *Task
-	stopped  bool
-	Hang     bool
+	C          *Choices
+	W          World
+	tasks      []*Task
+	schedCh    chan *Task
+	nextID     int
+	lockSeq    int32
+	Steps      int
+	MaxSteps   int
+	progress   uint64
+	hash       uint64
+	Trace      []string
+	TraceOn    bool
+	Viol       *Violation
+	Stats      map[string]int
+	SigParts   []string // schedule signature parts (contested decisions, faults)
+	Contested  int
+	initToks   []*byte
+	lastRun    *Task
+	stopped    bool
+	Hang       bool
 	OutOfSteps bool
 	// Infra is set when something happened that is neither a pass nor a verdict (harness trouble).
 	Infra      string
@@ -175,10 +177,18 @@ var (
 var Epoch = time.Date(2026, 1, 1, 0, 0, 0, 0, time.UTC)
 
 // NewSim creates a run.
+// OnNewSim registers a function that runs whenever a new simulation starts (per-run caches of helper packages).
+func OnNewSim(f func()) { newSimHooks = append(newSimHooks, f) }
+
+var newSimHooks []func()
+
 func NewSim(c *Choices) *Sim {
 	s := &Sim{C: c, schedCh: make(chan *Task), MaxSteps: 20000, Stats: map[string]int{}}
 	setClock(0)
 	curSim = s
+	for _, f := range newSimHooks {
+		f()
+	}
 	return s
 }
 
@@ -664,7 +674,7 @@ func (s *Sim) Hash() uint64 { return s.hash }
 // Logf appends to the trace (only when tracing is on). Never draws, never reads a real clock.
 func (s *Sim) Logf(format string, a ...interface{}) {
 	if s.TraceOn {
-		s.Trace = append(s.Trace, fmt.Sprintf("%5d t=%s ", s.Steps, time.Duration(ClockNanos())) + fmt.Sprintf(format, a...))
+		s.Trace = append(s.Trace, fmt.Sprintf("%5d t=%s ", s.Steps, time.Duration(ClockNanos()))+fmt.Sprintf(format, a...))
 	}
 }
 
